@@ -42,6 +42,87 @@ def frame_alphabet(d, m, e_is_client=True):
     return out
 
 
+def ids_of(cl):
+    """stream id constructors seen from endpoint E (client iff cl): peer bidi, peer uni, own bidi, own uni"""
+    return (lambda i: 4 * i + (1 if cl else 0), lambda i: 4 * i + (3 if cl else 2),
+            lambda i: 4 * i + (0 if cl else 1), lambda i: 4 * i + (2 if cl else 3))
+
+
+def id_frames(sid):
+    """every frame type that names a stream id"""
+    return [("pstream", sid, 0, 1, False), ("pstream", sid, 0, 0, True), ("preset", sid, 0),
+            ("pss", sid), ("pmd", sid, 5), ("psdb", sid, 0)]
+
+
+def id_frame_cases(thorough):
+    """each stream-id frame type on NEVER-OPENED streams whose index is limit-1 / limit / limit+1 of the
+    advertised MAX_STREAMS (bidi and uni), on the largest ids, after the endpoint raised MAX_STREAMS on the
+    wire, and on streams only the endpoint may open (wrong initiator) / cannot use in that direction"""
+    top_i = (1 << 60) - 1
+    for cl in (True, False):
+        pb, pun, mb, mu = ids_of(cl)
+        for (b, u) in [(1, 1), (2, 0), (0, 2)] + ([(3, 2), (128, 128), (0, 0)] if thorough else []):
+            cfg = {"seed": 4, "e_is_client": cl, "e_opts": {"max_data": 50, "max_stream_data": 20}, "e_streams": (b, u),
+                   "p_opts": {"max_data": 1000, "max_stream_data": 1000}}
+            sids = [pb(i) for i in (b - 1, b, b + 1, top_i) if i >= 0] + [pun(i) for i in (u - 1, u, u + 1, top_i) if i >= 0]
+            sids += [mb(0), mb(5), mu(0), mb(top_i), mu(top_i)]
+            for sid in sids:
+                for fr in id_frames(sid):
+                    yield cfg, [fr]
+                    if thorough:        # the same frame after the stream exists / after another stream was opened
+                        yield cfg, [("pstream", pb(0), 0, 1, False), fr]
+                        yield cfg, [("send", mb(0), 1, False), fr]
+        # the default limits (128) and the limit raised on the wire (used * 2 > value doubles it)
+        for (b, u, opened) in [(2, 2, 1), (128, 128, 64)]:
+            cfg = {"seed": 5, "e_is_client": cl, "e_opts": {"max_data": 50, "max_stream_data": 20}, "e_streams": (b, u),
+                   "p_opts": {"max_data": 1000, "max_stream_data": 1000}}
+            for mk in (pb, pun):
+                raise_it = [("pstream", mk(opened), 0, 1, False), ("adv", 0.1), ("tx",)]
+                for i in (2 * b - 1, 2 * b, 2 * b + 1):
+                    for fr in id_frames(mk(i)):
+                        if thorough or i == 2 * b or fr[0] in ("psdb", "pmd"):
+                            yield cfg, raise_it + [fr]
+                for fr in id_frames(mk(b)):
+                    yield cfg, [fr]
+
+
+def stop_cases(thorough):
+    """the application stops a stream whose sending half is finished (peer uni stream; bidi stream whose FIN was
+    acknowledged), the STOP_SENDING is written, then acknowledged / lost / unreported; afterwards the peer's
+    frames (which may have crossed the STOP_SENDING) go beyond the stream limit, the connection limit, or carry
+    a final size beyond the limits.  The stream may only be forgotten once FIN / RESET_STREAM completed it."""
+    for cl in (True, False):
+        pb, pun, mb, mu = ids_of(cl)
+        for (d, m) in [(20, 5), (6, 100)]:
+            cfg = {"seed": 6, "e_is_client": cl, "e_opts": {"max_data": d, "max_stream_data": m}, "e_streams": (3, 3),
+                   "p_opts": {"max_data": 1000, "max_stream_data": 1000}}
+            setups = {
+                "peer-uni": (pun(0), [("pstream", pun(0), 0, 2, False)]),
+                "own-bidi": (mb(0), [("send", mb(0), 1, True), ("adv", 0.1), ("tx",), ("ackall",), ("pstream", mb(0), 0, 2, False)]),
+                "peer-bidi": (pb(0), [("pstream", pb(0), 0, 2, False), ("send", pb(0), 1, True), ("adv", 0.1), ("tx",), ("ackall",)]),
+                "peer-bidi-unacked": (pb(1), [("pstream", pb(1), 0, 2, False), ("send", pb(1), 1, True), ("adv", 0.1), ("tx",)]),
+            }
+            afters = [[], [("ackall",), ("tx",)], [("lose",), ("adv", 0.1), ("tx",)], [("adv", 0.4), ("timer",), ("tx",)]]
+            lim = min(d, m)
+            for name, (sid, setup) in setups.items():
+                other = pun(1)
+                attacks = [
+                    [("pstream", sid, lim, 1, False)],
+                    [("preset", sid, lim + 1)],
+                    [("pstream", sid, 2, 1, False), ("pstream", sid, m, 1, True)],
+                    [("pstream", sid, TOP - 1, 1, False)],
+                    [("pstream", other, 0, 2, False), ("stop", other), ("adv", 0.1), ("tx",), ("ackall",),
+                     ("pstream", other, 2, min(m, d) - 3, False), ("pstream", sid, 2, 2, False)],
+                    [("pmulti", [("pstream", sid, 2, 1, False), ("preset", sid, max(d, m) + 1)])],
+                    [("pstream", sid, 2, 1, True), ("adv", 0.1), ("tx",), ("pstream", sid, lim, 1, False)],
+                    [("preset", sid, 3), ("adv", 0.1), ("tx",), ("preset", sid, lim + 1)],
+                ]
+                for ai, after in enumerate(afters):
+                    for ti, attack in enumerate(attacks):
+                        if thorough or (ai + ti) % 2 == 0 or ti < 2:
+                            yield cfg, setup + [("stop", sid), ("adv", 0.1), ("tx",)] + after + attack
+
+
 def exhaustive_cases(configs, k, stride):
     for (d, m, b, u) in configs:
         cfg = {"seed": 2, "e_is_client": True, "e_opts": {"max_data": d, "max_stream_data": m}, "e_streams": (b, u),
@@ -90,10 +171,15 @@ def random_script(r, e_is_client, d, m, n_ops):
             frames.append(script[-1])
             if off + ln <= 4 * max(m, d, 8):
                 sent[sid] = max(hi, off + ln)
+        elif x < 0.59:
+            # the other frame types that name a stream id, on opened and never-opened streams
+            sid = r.choice(peer + mine) if r.random() < 0.8 else r.choice([13, 17, 4 * 200 + (1 if e_is_client else 0), 4 * 129 + r.randrange(4), TOP - r.randrange(4)])
+            script.append(r.choice([("pss", sid), ("pmd", sid, r.choice([0, 3, 50])), ("psdb", sid, r.choice([0, m]))]))
+            frames.append(script[-1])
         elif x < 0.62:
             script.append(("send", r.choice(mine), r.choice([0, 1, 5]), r.random() < 0.3))
         elif x < 0.67:
-            script.append(("stop", r.choice(peer[:3] + mine[:2])))
+            script.append(("stop", r.choice(peer + mine[:2])))
         elif x < 0.75:
             script.append(("tx",))
         elif x < 0.85:
@@ -209,7 +295,9 @@ def main(tier):
     ctx.assumptions = [
         "frames reach the handlers parsed (offset + length <= 2^62-1 is checked by the handler itself and is modelled)",
         "frames for a stream whose state was discarded after both halves finished are ignored by the code "
-        "(StreamFinishedError): neither accusation nor buffering; the oracle does not demand an error there",
+        "(StreamFinishedError): neither accusation nor buffering; the oracle does not demand an error there, but it decides "
+        "by itself (FIN reached with all bytes sent, or RESET_STREAM accepted) whether the receive half is complete - "
+        "stop_stream() / STOP_SENDING alone never lifts a limit (discard_only_when_receive_finished)",
         "FINAL_SIZE_ERROR is the stream receiver's condition (a final size below data already received is accepted, "
         "RFC 9000 section 4.5 observation, not part of C07)",
         "retirement bound: min(4*active_connection_id_limit, 100) plus RETIRE_CONNECTION_ID frames in flight that are re-queued on loss, "
@@ -238,6 +326,15 @@ def main(tier):
                     res = fc.run_puppet(cfg, [fr])
                     evaluate(ctx, "single", cfg, [fr], res, cases, impl_outs, qcases, qouts)
     fc.diff_cases(ctx, "flow-recv-single", cases, impl_outs)
+    # 1b. every frame type naming a stream id x stream-count limits; stop_stream() then frames beyond the limits
+    for name, gen in (("stream-ids", id_frame_cases), ("stop", stop_cases)):
+        cases, impl_outs = [], []
+        for cfg, script in gen(thorough):
+            res = fc.run_puppet(cfg, script)
+            evaluate(ctx, name, cfg, script, res, cases, impl_outs, qcases, qouts)
+        ctx.sample({name: {"cfg": cfg, "script": script}})
+        ctx.notes["cases_" + name] = len(cases)
+        fc.diff_cases(ctx, "flow-recv-" + name, cases, impl_outs)
     # 2. PRNG histories (limits raised by the endpoint as data arrives, losses of MAX_* frames, full congestion window)
     cases, impl_outs = [], []
     for i in range(120 if not thorough else 2500):
@@ -268,7 +365,12 @@ def main(tier):
         "real QuicConnection after a real handshake, frames sent by a key-holding peer: (1) every pair (strided in the quick "
         "tier) and every single STREAM/RESET_STREAM frame with end offsets at limit-1, limit, limit+1, 2^62-1 of the "
         "advertised connection and stream limits, lengths 0..2, FIN or not, on peer bidi / peer uni / own uni streams, "
-        "as client and as server; (2) PRNG histories of such frames interleaved with the endpoint raising its limits "
+        "as client and as server; (1b) STREAM / RESET_STREAM / STOP_SENDING / MAX_STREAM_DATA / STREAM_DATA_BLOCKED each on "
+        "never-opened stream ids at index limit-1, limit, limit+1 of the advertised MAX_STREAMS (bidi, uni), on the largest ids, "
+        "after MAX_STREAMS was raised on the wire, and on wrong-initiator / wrong-direction ids; stop_stream() on a stream whose "
+        "sending half is finished (peer uni, bidi with acknowledged FIN), STOP_SENDING written then acked / lost / unreported, "
+        "followed by frames beyond the stream limit, the connection limit and final sizes beyond the limits (the oracle itself "
+        "decides whether the receive half completed; only then may frames be ignored); (2) PRNG histories of such frames interleaved with the endpoint raising its limits "
         "(MAX_* observed on the wire), loss of the packets carrying MAX_*, a full congestion window (MAX_* cannot be "
         "written), application writes/stops; (3) CRYPTO frames around MAX_PENDING_CRYPTO, PATH_CHALLENGE bursts, "
         "NEW_CONNECTION_ID / retire-prior-to sequences. Non-trivial = a history with a frame accepted within limits and a "
